@@ -3,6 +3,6 @@
 cd /verif
 for p in $(./bin/gosmt list | awk '{print $1}' | sort -u); do
   s=$(date +%s)
-  GOSMT_TIMES=1 timeout ${QT:-1800} ./bin/gosmt check --property $p --tier ${TIER:-quick} --noevidence > /tmp/q_$p.txt 2>&1; e=$?
+  GOSMT_TIMES=1 timeout ${QT:-1800} ./bin/gosmt check --property $p --tier ${TIER:-quick} > /tmp/q_$p.txt 2>&1; e=$?
   echo "$p exit=$e t=$(( $(date +%s)-s ))s $(grep -a -c -E '^VIOLATION' /tmp/q_$p.txt) viol; $(grep -a -E '^(INCONCLUSIVE|KNOWN-FINDING)' /tmp/q_$p.txt | head -2 | cut -c1-160)"
 done
